@@ -84,4 +84,9 @@ def field_header_disambiguated (self_raw : Str) : Str :=
 def routing_param_disambiguated_field (self_field : Str) : Str :=
   (join (['.'] : Str) (((split self_field ['.'])).map fun segment_ => (if (strIn segment_ (GapicModel.Pinned.reservedNames.map String.toList)) then (segment_ ++ (['_'] : Str)) else segment_)))
 
+-- gapic/schema/wrappers.py — Method.client_method_name
+def client_method_name (self_name : Str) (self_is_internal : Bool) : Str :=
+  let name : Str := (if (strIn (lower self_name) (GapicModel.Pinned.pyKeywords.map String.toList)) then (self_name ++ (['_'] : Str)) else self_name)
+  (if self_is_internal then (make_private name) else name)
+
 end GapicModel.Pinned.Funcs
